@@ -86,6 +86,48 @@ func c05Judge(c *core.Ctx, b []byte, what string, corruption bool) {
 		_, _ = m.ReadFrom(failingReader{errs[int((h>>9)%uint64(len(errs)))]})
 		c.Count("checks_after_failed_reads", 1)
 	}
+	var clone *stun.Message
+	if h := gen.HashBytes(b); h%5 == 2 || h%5 == 3 {
+		// ... or read-only use of other kinds: the message was logged (fmt verbs reach the Stringers of the message and of
+		// every attribute), compared with another decode of the same bytes, cloned from inside an attribute walk. None
+		// of these is an edit: the message is what it was, and so is the verdict (for the clone as well).
+		pre := viewOf(m)
+		if h%5 == 2 {
+			_ = fmt.Sprintf("%v|%s|%+v|%v", m.Attributes, m.Attributes, *m, m) //nolint:govet // a by-value copy is the point
+			for _, a := range m.Attributes {
+				_ = a.String()
+			}
+			c.Count("checks_after_formatting", 1)
+		} else {
+			other := new(stun.Message)
+			_ = stun.Decode(b, other)
+			if !m.Equal(other) || !other.Equal(m) {
+				c.Violate("check-verdict", "equal-to-own-bytes", map[string]interface{}{"what": what, "input_hex": core.Hex(b), "problem": "two decodes of the same bytes are not Equal"})
+			}
+			if len(rm.TLVs) > 0 && len(rm.TLVs) <= 64 {
+				pick := rm.TLVs[int((h>>8)%uint64(len(rm.TLVs)))].Type
+				if pick == 0x8020 {
+					pick = 0x0020
+				}
+				_ = m.ForEach(stun.AttrType(pick), func(mm *stun.Message) error {
+					if clone == nil {
+						clone = new(stun.Message)
+						if mm.CloneTo(clone) != nil {
+							clone = nil
+						}
+					}
+
+					return nil
+				})
+			}
+			c.Count("checks_after_comparison_and_clone", 1)
+		}
+		if d := pre.diff(viewOf(m)); d != "" {
+			c.Violate("check-mutated", "read-only-use-mutated", map[string]interface{}{"what": what, "input_hex": core.Hex(b), "use": []string{"formatting", "Equal / CloneTo inside ForEach"}[h%5-2], "diff": d})
+
+			return
+		}
+	}
 	before := viewOf(m)
 	var cerr error
 	if p, stack := safely(func() { cerr = stun.Fingerprint.Check(m) }); p != nil {
@@ -101,6 +143,11 @@ func c05Judge(c *core.Ctx, b []byte, what string, corruption bool) {
 	}
 	if (cerr == nil) != want {
 		c.Violate("check-verdict", "check-verdict:"+what, map[string]interface{}{"what": what, "input_hex": core.Hex(b), "lib": fmt.Sprint(cerr), "oracle": why})
+	}
+	if clone != nil {
+		if cl := stun.Fingerprint.Check(clone); (cl == nil) != want {
+			c.Violate("check-verdict", "check-verdict:clone-taken-inside-ForEach", map[string]interface{}{"what": what, "input_hex": core.Hex(b), "lib": fmt.Sprint(cl), "oracle": why})
+		}
 	}
 	if corruption && count == 1 {
 		c.Count("corruptions_with_single_fingerprint", 1)
